@@ -90,7 +90,10 @@ where
             let budget = nsteps * 4 + 64;
             let mut ended = false;
             let mut extra_left = extra;
+            // polls that produced no bytes; a DATA frame with bytes is progress and does not count
+            // (how finely the encoder slices its output is its own business)
             let mut total = 0usize;
+            let mut bytes_out = 0usize;
             loop {
                 if !ended && body.is_end_stream() {
                     // is_end_stream()==true promises that no further frame will come
@@ -100,6 +103,12 @@ where
                 total += 1;
                 match r {
                     Out::Done(Some(Ok(f))) => {
+                        if let Some(d) = f.data_ref() {
+                            if !d.is_empty() && !ended {
+                                total -= 1;
+                                bytes_out += d.len();
+                            }
+                        }
                         if ended {
                             out.after_end_non_none += 1;
                         }
@@ -139,7 +148,7 @@ where
                         break;
                     }
                 }
-                if total > nsteps * 4 + 64 + extra {
+                if total > nsteps * 4 + 64 + extra || bytes_out > (1usize << 30) {
                     out.budget = true;
                     break;
                 }
